@@ -28,6 +28,7 @@ import (
 	"crypto/sha256"
 	"crypto/x509"
 	"encoding/base64"
+	"encoding/hex"
 	"errors"
 	"fmt"
 	"io"
@@ -736,6 +737,10 @@ func (a *Authenticator) handleSessionResumption(ctx context.Context, sessionID s
 		responseAd := classad.New()
 		_ = responseAd.Set("ReturnCode", "AUTHORIZED")
 		_ = responseAd.Set("Sid", sessionID)
+		// A fresh value per connection (see resumeSession): client frames recorded
+		// on an earlier resumed connection are bound to that connection's reply and
+		// do not open on this one.
+		_ = responseAd.Set("ResumeNonce", newResumeNonce())
 
 		responseMsg := message.NewMessageForStream(a.stream)
 		if err := responseMsg.PutClassAd(ctx, responseAd); err != nil {
@@ -1451,6 +1456,16 @@ func (a *Authenticator) storeClientSession(negotiation *SecurityNegotiation, dur
 		redactSessionID(negotiation.SessionId), serverAddr, durationSecs, leaseSecs), "destination", "cedar")
 }
 
+// newResumeNonce returns 128 random bits as hex, used to make every resumption
+// exchange unique (peers ignore the attribute; it only has to enter the digests).
+func newResumeNonce() string {
+	var b [16]byte
+	if _, err := rand.Read(b[:]); err != nil {
+		return fmt.Sprintf("%d", time.Now().UnixNano())
+	}
+	return hex.EncodeToString(b[:])
+}
+
 // resumeSession attempts to resume an existing session
 func (a *Authenticator) resumeSession(ctx context.Context, entry *SessionEntry, cache *SessionCache) (*SecurityNegotiation, error) {
 	// Create message for session resumption request
@@ -1483,6 +1498,10 @@ func (a *Authenticator) resumeSession(ctx context.Context, entry *SessionEntry, 
 	_ = resumeAd.Set("Sid", entry.ID())
 	_ = resumeAd.Set("ResumeResponse", true) // Request response for modern protocol
 	_ = resumeAd.Set("RemoteVersion", DefaultRemoteVersion)
+	// A fresh value per connection: the request is hashed into the handshake
+	// digests that are bound into the first protected frame of each direction, so
+	// server frames recorded on an earlier resumed connection do not open here.
+	_ = resumeAd.Set("ResumeNonce", newResumeNonce())
 
 	// Include crypto methods if available from cached policy
 	if entry.Policy() != nil {
